@@ -827,6 +827,16 @@ class Evaluator:
                     return Const(a.v ** b.v)
                 if isinstance(op, ast.Mod):
                     return Const(a.v % b.v)
+                if isinstance(op, ast.BitXor):
+                    return Const(a.v ^ b.v)
+                if isinstance(op, ast.BitOr):
+                    return Const(a.v | b.v)
+                if isinstance(op, ast.BitAnd):
+                    return Const(a.v & b.v)
+                if isinstance(op, ast.LShift):
+                    return Const(a.v << b.v)
+                if isinstance(op, ast.RShift):
+                    return Const(a.v >> b.v)
             except Exception as ex:
                 raise AbsRaise(type(ex).__name__, str(ex))
         if isinstance(op, ast.Add) and isinstance(a, (list, tuple)) and isinstance(b, (list, tuple)):
@@ -1061,6 +1071,9 @@ class Evaluator:
         if t.py is type and len(args) == 1:
             return self.builtin("type", args, kwargs, e)
         if t.py is not None:
+            if t.py in (int, str) and args and isinstance(args[0], Digest):
+                # a digest over known bytes used as a number / text
+                args = [self.fold_digest(args[0])] + list(args[1:])
             if t.py in (str, int, float, bool, list, tuple, dict, set, frozenset, bytes) and all(isinstance(a, Const) for a in args) and not kwargs:
                 try:
                     return Const(t.py(*[a.v for a in args]))
@@ -1106,6 +1119,15 @@ class Evaluator:
         return ob
 
     def method(self, base: Any, attr: str, args: List[Any], kwargs: Dict[str, Any], e: ast.Call) -> Any:
+        if isinstance(base, Const) and isinstance(base.v, pathlib.PurePath) and not kwargs and all(isinstance(a, Const) for a in args):
+            # pure (lexical) operations of a path object given as a constant; `absolute()` only where it is the identity
+            if attr in ("is_absolute", "as_posix", "as_uri", "joinpath", "with_suffix", "with_name", "relative_to", "is_relative_to", "match", "__str__", "__fspath__") \
+                    or (attr == "absolute" and base.v.is_absolute() and not args):
+                try:
+                    return Const(base.v if attr == "absolute" else getattr(base.v, attr)(*[a.v for a in args]))
+                except Exception as ex:
+                    raise AbsRaise(type(ex).__name__, str(ex))
+            return TOP
         if isinstance(base, Const):
             if all(isinstance(a, Const) for a in args) and all(isinstance(v, Const) for v in kwargs.values()):
                 if attr in ("upper", "lower", "strip", "replace", "split", "startswith", "endswith", "encode", "join",
@@ -1153,6 +1175,14 @@ class Evaluator:
             self.events.append(ob)
             if base.callee.endswith("sha256") and attr == "hexdigest":
                 return Digest(base.args[0] if base.args else TOP)
+            if base.callee.endswith("sha256") and attr == "update" and len(args) == 1:
+                # the digested bytes accumulate in the object
+                cur = base.args[0] if base.args else Const(b"")
+                if isinstance(cur, Const) and isinstance(args[0], Const) and isinstance(cur.v, (bytes, bytearray)) and isinstance(args[0].v, (bytes, bytearray)):
+                    base.args[:] = [Const(bytes(cur.v) + bytes(args[0].v))]
+                else:
+                    base.args[:] = [TOP]
+                return Const(None)
             return TOP
         return TOP
 
@@ -1183,6 +1213,8 @@ class Evaluator:
             if isinstance(a, (list, tuple, dict)):
                 return Const(len(a))
             return TOP
+        if name == "int" and args and isinstance(args[0], Digest):
+            args = [self.fold_digest(args[0])] + list(args[1:])
         if name in ("format", "hex", "oct", "bin", "abs", "repr", "int", "str") and args and all(isinstance(a, Const) for a in args) and not kwargs \
                 and all(isinstance(a.v, (int, float, str, bytes, bool, type(None))) for a in args):
             try:
